@@ -475,6 +475,13 @@ def run_bmc(q, prop, findings):
                 terms_other.append(z3.And(U.ok[t], v))
         r = dict(base, check=f"assert:{a}")
         t0 = time.time()
+        if os.environ.get("VERIF_DUMP_SMT"):
+            # cross-check support (tools/crosscheck.py): the very formula handed to z3, as SMT-LIB 2
+            ds = z3.Solver()
+            ds.add(z3.Or(*terms_other))
+            os.makedirs(os.environ["VERIF_DUMP_SMT"], exist_ok=True)
+            with open(os.path.join(os.environ["VERIF_DUMP_SMT"], f"{prop}_{q.name}_{a}.smt2"), "w") as fdump:
+                fdump.write("(set-logic QF_BV)\n" + ds.sexpr() + "(check-sat)\n")
         out, s = _check(z3.Or(*terms_other), q.timeout, q.tactic)
         r["solver_s"] = round(time.time() - t0, 2)
         r["result"] = out
